@@ -25,6 +25,7 @@ type toCase struct {
 	TimeoutMs   int    `json:"timeout_ms"`
 	Variation   bool   `json:"in_second_variation,omitempty"`       // the task has two variations, only the second one overruns
 	Interactive bool   `json:"interactive,omitempty"`               // interactive task; the runner's stdin is a pipe that stays open and silent
+	Cond        bool   `json:"with_condition,omitempty"`            // the task also has a condition (that holds)
 	Earlier     bool   `json:"earlier_tolerated_failure,omitempty"` // allow_failure task whose first command exits non-zero before the overrun
 }
 
@@ -137,6 +138,9 @@ func runTimeoutCase(a args, tcx toCase, idx int, confirm bool) (suspect string) 
 			t.Commands = append(t.Commands, fmt.Sprintf("sleep %.3f; %s", sl, tok(fmt.Sprint("c", i))))
 			want = append(want, fmt.Sprint("c", i))
 		}
+	}
+	if tcx.Cond {
+		t.Condition = "test 1 = 1"
 	}
 	out.Begin(fmt.Sprintf("timeout#%d %s", idx, h.MustJSON(tcx)))
 	r := newQuietRunner()
@@ -274,6 +278,12 @@ func modeTimeout(a args) {
 			}
 		}
 	}
+	for _, shape := range []string{"sleep", "busy", "statements"} {
+		for _, where := range []string{"command", "before", "after"} {
+			cases = append(cases, toCase{Kind: "overrun", Shape: shape, Where: where, N: 2, Pos: 1, TimeoutMs: 200 + 100*len(cases)%5, Cond: true, Allow: len(cases)%2 == 0})
+		}
+	}
+	cases = append(cases, toCase{Kind: "fits", N: 2, TimeoutMs: 2000, Cond: true}, toCase{Kind: "each-full", N: 3, TimeoutMs: 400, Cond: true})
 	for _, shape := range []string{"sleep", "ignore-int", "pipeline"} {
 		for _, where := range []string{"command", "before"} {
 			cases = append(cases, toCase{Kind: "overrun", Shape: shape, Where: where, N: 2, Pos: 0, TimeoutMs: 300, Interactive: true})
